@@ -7,6 +7,8 @@ import STProofs.QuinticMinimal
 import STProofs.SepticMinimal
 import STProofs.CubicUnique
 import Mathlib.Analysis.Calculus.ContDiff.Deriv
+import STProofs.Structure
+import Mathlib.Algebra.BigOperators.Intervals
 /-!
 # C02 — minimum acceleration / jerk / snap interpolant (property theorems, every N, positive durations)
 
@@ -128,3 +130,77 @@ example : CubicMin.Comp (fun t => 2 * t) (fun _ => 2) (fun _ => 0) ∧
 /-- non-vacuity of the positivity hypothesis -/
 example : ∀ h ∈ ([1, 2, 1/2] : List ℚ), 0 < h := by
   intro h hh; simp at hh; rcases hh with rfl | rfl | rfl <;> norm_num
+
+/-! ### D dimensions: the object the user holds
+
+The energy the D-dimensional object reports is the sum over coordinates of the 1-D energies (`energy_is_sum`, C13), and each
+coordinate is the 1-D minimiser; hence for every D-tuple of competitors through the same waypoints / knot times / boundary
+states the reported energy is at most the sum of their energies ∑ⱼ ∫ (gⱼ⁽ˢ⁾)². -/
+open scoped BigOperators
+
+namespace MinimalND
+
+theorem stsum_range (d : Nat) (F : Nat → ℝ) : ST.sum ((List.range d).map F) = ∑ j ∈ Finset.range d, F j := by
+  have h : ∀ l : List ℝ, ST.sum l = l.sum := by
+    intro l; induction l with
+    | nil => simp [ST.sum, lit_eq]
+    | cons x xs ih => simp [ST.sum, ih]
+  rw [h]
+  induction d with
+  | zero => simp
+  | succ d ih => rw [List.range_succ, List.map_append, List.sum_append, Finset.sum_range_succ, ih]; simp
+
+theorem col_getD (P : List (Vec ℝ)) (i j : Nat) :
+    (P.map (fun r => getC r j)).getD i 0 = getC (P.getD i []) j := by
+  simp only [getC, List.getD_eq_getElem?_getD, List.getElem?_map]
+  cases P[i]? <;> simp [lit_eq]
+
+/-- cubic, D dimensions -/
+theorem minimiser_ND_cubic (d : Nat) (h : List ℝ) (P : List (Vec ℝ)) (t0 : ℝ) (bc : BC ℝ) (hpos : PosList h) (hne : h ≠ [])
+    (hP : P.length = h.length + 1) (g : Nat → ℝ → ℝ) (hg : ∀ j, j < d → ContDiff ℝ 2 (g j))
+    (hk : ∀ j, j < d → ∀ i, i ≤ h.length → g j ((cumulative (0:ℝ) h).getD i 0) = getC (P.getD i []) j)
+    (hv0 : ∀ j, j < d → deriv (g j) 0 = getC bc.v0 j) (hvn : ∀ j, j < d → deriv (g j) h.sum = getC bc.vn j) :
+    (buildND .cubic d h P t0 bc).energy
+      ≤ ∑ j ∈ Finset.range d, ∫ t in (0:ℝ)..h.sum, (deriv (deriv (g j)) t) ^ 2 := by
+  rw [(energy_is_sum .cubic d h P t0 bc).1, stsum_range]
+  apply Finset.sum_le_sum
+  intro j hj
+  have hj' := Finset.mem_range.mp hj
+  exact C02_minimiser_cubic h (P.map (fun r => getC r j)) (getC bc.v0 j) (getC bc.vn j) hpos hne (by simp [hP]) (g j)
+    (hg j hj') (fun i hi => by rw [col_getD]; exact hk j hj' i hi) (hv0 j hj') (hvn j hj')
+
+/-- quintic, D dimensions -/
+theorem minimiser_ND_quintic (d : Nat) (h : List ℝ) (P : List (Vec ℝ)) (t0 : ℝ) (bc : BC ℝ) (hpos : ∀ x ∈ h, 0 < x)
+    (hne : h ≠ []) (hP : P.length = h.length + 1) (g : Nat → ℝ → ℝ) (hg : ∀ j, j < d → ContDiff ℝ 3 (g j))
+    (hk : ∀ j, j < d → ∀ i, i ≤ h.length → g j ((cumulative (0:ℝ) h).getD i 0) = getC (P.getD i []) j)
+    (hv0 : ∀ j, j < d → deriv (g j) 0 = getC bc.v0 j) (ha0 : ∀ j, j < d → deriv (deriv (g j)) 0 = getC bc.a0 j)
+    (hvn : ∀ j, j < d → deriv (g j) h.sum = getC bc.vn j) (han : ∀ j, j < d → deriv (deriv (g j)) h.sum = getC bc.an j) :
+    (buildND .quintic d h P t0 bc).energy
+      ≤ ∑ j ∈ Finset.range d, ∫ t in (0:ℝ)..h.sum, (deriv (deriv (deriv (g j))) t) ^ 2 := by
+  rw [(energy_is_sum .quintic d h P t0 bc).1, stsum_range]
+  apply Finset.sum_le_sum
+  intro j hj
+  have hj' := Finset.mem_range.mp hj
+  exact C02_minimiser_quintic h (P.map (fun r => getC r j)) ⟨getC bc.v0 j, getC bc.a0 j⟩ ⟨getC bc.vn j, getC bc.an j⟩ hpos hne
+    (by simp [hP]) (g j) (hg j hj') (fun i hi => by rw [col_getD]; exact hk j hj' i hi) (hv0 j hj') (ha0 j hj')
+    (hvn j hj') (han j hj')
+
+/-- septic, D dimensions -/
+theorem minimiser_ND_septic (d : Nat) (h : List ℝ) (P : List (Vec ℝ)) (t0 : ℝ) (bc : BC ℝ) (hpos : ∀ x ∈ h, 0 < x)
+    (hne : h ≠ []) (hP : P.length = h.length + 1) (g : Nat → ℝ → ℝ) (hg : ∀ j, j < d → ContDiff ℝ 4 (g j))
+    (hk : ∀ j, j < d → ∀ i, i ≤ h.length → g j ((cumulative (0:ℝ) h).getD i 0) = getC (P.getD i []) j)
+    (hv0 : ∀ j, j < d → deriv (g j) 0 = getC bc.v0 j) (ha0 : ∀ j, j < d → deriv (deriv (g j)) 0 = getC bc.a0 j)
+    (hj0 : ∀ j, j < d → deriv (deriv (deriv (g j))) 0 = getC bc.j0 j)
+    (hvn : ∀ j, j < d → deriv (g j) h.sum = getC bc.vn j) (han : ∀ j, j < d → deriv (deriv (g j)) h.sum = getC bc.an j)
+    (hjn : ∀ j, j < d → deriv (deriv (deriv (g j))) h.sum = getC bc.jn j) :
+    (buildND .septic d h P t0 bc).energy
+      ≤ ∑ j ∈ Finset.range d, ∫ t in (0:ℝ)..h.sum, (deriv (deriv (deriv (deriv (g j)))) t) ^ 2 := by
+  rw [(energy_is_sum .septic d h P t0 bc).1, stsum_range]
+  apply Finset.sum_le_sum
+  intro j hj
+  have hj' := Finset.mem_range.mp hj
+  exact C02_minimiser_septic h (P.map (fun r => getC r j)) ⟨getC bc.v0 j, getC bc.a0 j, getC bc.j0 j⟩
+    ⟨getC bc.vn j, getC bc.an j, getC bc.jn j⟩ hpos hne (by simp [hP]) (g j) (hg j hj')
+    (fun i hi => by rw [col_getD]; exact hk j hj' i hi) (hv0 j hj') (ha0 j hj') (hj0 j hj') (hvn j hj') (han j hj') (hjn j hj')
+
+end MinimalND
